@@ -16,7 +16,7 @@ LEVEL_TEXT = (
     'necessary conditions; termination and schedule independence as theorems are NOT decided.')
 
 FLOORS = {'C05-R1': 6, 'C05-R2': 5, 'C05-R3': 1, 'C05-R4': 2, 'C05-R5': 2, 'C05-R6': 4,
-          'C05-R7': 4, 'C05-R8': 3, 'C05-R9': 1, 'C01-R7': 5, 'C01-R10': 4}
+          'C05-R7': 4, 'C05-R8': 3, 'C05-R9': 1, 'C05-R10': 2, 'C01-R7': 5, 'C01-R10': 4}
 
 BLOCKING = ('thread::sleep', 'JoinHandle::join', 'Receiver::recv', 'Receiver::recv_timeout',
             'Thread::park', 'thread::park', 'Condvar::wait', 'Condvar::wait_for', 'Condvar::wait_until',
@@ -417,6 +417,36 @@ def r9_empty_batch_is_shutdown_signal(ctx, F, rule='C05-R9'):
                       'discard the real batches: pending work is lost' % '/'.join(readers), span=pc.span)
 
 
+def r10_initial_market(ctx, F, rule='C05-R10'):
+    """JobBroker::new: the count of active workers starts at the number of workers. The last worker
+    to run out of work closes the market when the count reaches zero; brokers held by threads that
+    never wait in pop() (the timeout thread) are not workers."""
+    import roles
+    from taint import origin_vals
+    b = roles.jm(F, 'new')
+    ctx.touched(b)
+    aggs = [st for (i, si, st) in b.assigns(lambda st: st['rv']['k'] == 'agg' and
+                                            st['rv'].get('adt', '').endswith('JobMarket'))]
+    if len(aggs) != 1:
+        raise AnchorMissing('JobBroker::new: construction of JobMarket')
+    st = aggs[0]
+    f = dict(zip(st['rv']['fields'], st['rv']['ops']))
+    if not {'open', 'thread_count', 'open_count', 'job_batches'} <= set(f):
+        raise AnchorMissing('JobBroker::new: JobMarket fields %s' % sorted(f))
+
+    def is_param(op):
+        vs = origin_vals(b, op) if op.get('k') in ('copy', 'move') else set()
+        return bool(vs) and all(v.kind == 'arg' and v.key == 1 and not v.projs for v in vs)
+    ctx.check(is_param(f['open_count']) and is_param(f['thread_count']), rule, 'open-count-starts-at-worker-count', b,
+              good='open_count and thread_count both start as the thread_count parameter',
+              bad='JobBroker::new: open_count does not start as the number of workers (thread_count): the '
+                  '"last active worker" test (open_count == 0) fires too early - work is abandoned - or never - '
+                  'idle workers wait until the timeout although the search is finished')
+    ov = b.val(f['open'])
+    ctx.check(ov.kind == 'const' and ov.key == 1, rule, 'market-starts-open', b,
+              good='the market starts open', bad='JobBroker::new: the market does not start open')
+
+
 def run(ctx):
     F = ctx.facts
     ctx.doc('C05-R1', 'no blocking call inside a live range of the job-market MutexGuard (Condvar::wait '
@@ -444,6 +474,9 @@ def run(ctx):
                       'worker queue is published only when non-empty')
     with ctx.rule('C05-R9', 'split_and_push'):
         r9_empty_batch_is_shutdown_signal(ctx, F)
+    ctx.doc('C05-R10', 'JobBroker::new: open_count and thread_count start as the thread_count parameter; open = true')
+    with ctx.rule('C05-R10', 'new'):
+        r10_initial_market(ctx, F)
     # "no pending unit of work is dropped": the frontier-conservation rules of C01
     import c01
     import c19
